@@ -11,11 +11,39 @@ def main():
     emb = make_cases(beh[::5], "bb", sizes, run, zq=0)
     for k, c in enumerate(emb):
         c["scale"] = [7, 1000, 65536][k % 3]
+    # automatic zoom ladders need inputs large enough for a level to be kept (levels are pruned by size):
+    # longer seeded inputs, small items_per_slot, initial zoom size 10 or 160, single and two pass
+    import random as _r
+    rg = _r.Random(run.seed + 7)
+    auto = []
+    for k in range(12 if run.thorough else 4):
+        items, L = [], 0
+        for c in (1, 2):
+            p = rg.randint(0, 5)
+            for _ in range(rg.choice([150, 260])):
+                ln = rg.randint(1, 5)
+                s_ = p if False else max(0, p - rg.choice([0, 0, 2]))
+                items.append([c, s_, s_ + ln, rg.randint(1, 3)])
+                p = s_ + ln + rg.choice([0, 0, 1, 3, 25])
+            L = max(L, p + 5)
+        if True:
+            items.sort(key=lambda it: (it[0], it[1]))
+        auto.append({"kind": "bb", "chroms": [L, L], "items": items, "vmap": "int", "allq": 0, "zq": 0, "mz": [], "scale": 1, "asq": "bed3", "long": 0,
+                     "msum": {"bases": 0, "sum": 0, "sumsq": 0, "min": 0, "max": 0, "int": 1},
+                     "opts": {"ips": 4, "bs": 3, "zmode": "auto", "izs": [10, 160][k % 2], "maxz": 10, "zooms": [], "compress": k % 2, "inmem": 1, "rt": "multi", "threads": 2,
+                              "pass": 1 + (k // 2) % 2, "chan": 100, "sort": "all"}})
     def nt(o):
+        if o["opts"].get("zmode") == "auto":
+            return True
         its = o["items"]
         return any(its[i][0] == its[j][0] and its[i][2] > its[j][1] and its[i][1] < its[j][2] for i in range(len(its)) for j in range(i + 1, len(its)))
     desc = lambda o: {k: o["obs"].get(k) for k in ("result", "err", "zooms", "zint", "unmapped")}
-    obs = judge(run, "C08", "Obs_BigBed", cases + emb, nt, desc)
+    obs = judge(run, "C08", "Obs_BigBed", cases + emb + auto, nt, desc)
+    autos = [o for o in obs if o["opts"].get("zmode") == "auto"]
+    run.cov["automatic_zoom_cases"] = len(autos)
+    run.cov["automatic_zoom_levels_kept"] = [len(o["obs"].get("zooms", [])) for o in autos]
+    if autos and not any(len(o["obs"].get("zooms", [])) >= 2 for o in autos):
+        raise ToolError("vacuity: no automatic-zoom case kept two levels: %s" % run.cov["automatic_zoom_levels_kept"])
     run.cov["rule"] = ("every start-sorted layout within the TLC bounds x manual zoom lists x ips; a fifth replayed under affine embeddings; "
                        "non-trivial = at least one pair of overlapping entries; distinct by (items, ips, zooms, scale)")
     run.sample({"items": obs[len(obs) // 3]["items"], "opts": obs[len(obs) // 3]["opts"], "zooms": obs[len(obs) // 3]["obs"].get("zooms")})
